@@ -97,7 +97,7 @@ class SchemaBuilder:
         self.open = []  # full names of records under construction
         self.counter = 0
 
-    def new_name(self, ns_hint):
+    def new_name(self, ns_hint, kind=None):
         d = self.d
         pool = self.f.ns_pool or NAMESPACES
         if self.f.namespaces:
@@ -105,14 +105,19 @@ class SchemaBuilder:
         else:
             ns = ""
         short = d.choice(SHORTS)
-        if self.table and self.f.namespaces and d.p(self.f.name_clash):
+        if self.table and self.f.namespaces and d.p(self.f.name_clash if not self.f.unique_shorts else 0.25):
             # deliberately re-use a short name that already exists in another namespace; a null-namespace
             # type shadowed from inside a namespace is the interesting shape, so prefer those
             nulls = [n for n in self.table if "." not in n]
             pick = d.choice(nulls) if (nulls and ns and d.p(0.6)) else d.choice(list(self.table))
             short = M.split_full(pick)[1]
         full = ns + "." + short if ns else short
-        while full in self.table or short in M.PRIMS or (self.f.unique_shorts and short in {M.split_full(x)[1] for x in self.table}):
+        def taken(sh):
+            # unique_shorts: unqualified names unique among types of the same kind (types of different kinds never match
+            # during schema resolution, so a record and an enum may share a short name)
+            return self.f.unique_shorts and sh in {M.split_full(x)[1] for x, n in self.table.items() if kind is None or n["k"] == kind}
+
+        while full in self.table or short in M.PRIMS or taken(short):
             self.counter += 1
             short = f"{short}{self.counter}"
             full = ns + "." + short if ns else short
@@ -164,7 +169,7 @@ class SchemaBuilder:
         if kind == "map":
             return {"k": "map", "values": self.gen(ns, depth + 1, "values")}
         if kind == "enum":
-            tns, full = self.new_name(ns)
+            tns, full = self.new_name(ns, "enum")
             n = d.rng(1, 5)
             start = d.i(len(SYMBOLS))
             syms = [SYMBOLS[(start + j) % len(SYMBOLS)] for j in range(n)]
@@ -174,7 +179,7 @@ class SchemaBuilder:
             self.table[full] = node
             return node
         if kind == "fixed":
-            tns, full = self.new_name(ns)
+            tns, full = self.new_name(ns, "fixed")
             size = d.weighted([(1, 3), (2, 3), (4, 3), (0, 1), (16, 2), (7, 2), (70, 1)])
             node = {"k": "fixed", "name": full, "size": size, "aliases": []}
             self.table[full] = node
@@ -237,7 +242,7 @@ class SchemaBuilder:
 
     def gen_record(self, ns, depth):
         d, f = self.d, self.f
-        tns, full = self.new_name(ns)
+        tns, full = self.new_name(ns, "record")
         node = {"k": "record", "name": full, "fields": [], "aliases": []}
         self.table[full] = node
         self.open.append(full)
@@ -735,7 +740,10 @@ class DataGen:
     def record(self, node, budget):
         d, f = self.d, self.f
         out = {}
+        minimal = f.omit > 0 and d.p(0.08)  # a datum that names as few fields as the schema allows (possibly {})
         for fl in node["fields"]:
+            if minimal and ("default" in fl or B.conforms(fl["type"], self.table, None)):
+                continue
             if "default" in fl and d.p(f.omit):
                 continue
             if "default" not in fl and d.p(f.omit / 3) and B.conforms(fl["type"], self.table, None):
@@ -1079,7 +1087,7 @@ EVO_STEPS = [
     ("reorder", 4), ("drop-field", 5), ("add-field-default", 4), ("rename-field-alias", 3), ("promote", 6),
     ("enum-add", 2), ("enum-remove-default", 3), ("rename-type-alias", 3), ("change-namespace", 2),
     ("wrap-union", 5), ("unwrap-union", 3), ("permute-union", 3), ("union-insert-branch", 5),
-    ("add-field-nodefault", 2), ("change-type", 2), ("enum-remove-nodefault", 2), ("fixed-size", 1), ("rename-type-noalias", 1), ("union-drop-branch", 2),
+    ("add-field-nodefault", 2), ("change-type", 2), ("enum-remove-nodefault", 2), ("fixed-size", 3), ("rename-type-noalias", 2), ("union-drop-branch", 2),
 ]
 
 
